@@ -35,8 +35,19 @@ def rule_derive_list(rep, crate):
     for h, e in ex:
         rep.viol(rid, 'loop-left-early:strip_attributes', 'a loop of strip_attributes over attributes / variants / fields is left before its iterator is exhausted (break/return): later items are not processed', loc(fn, fn.blocks[e[0]]['term']['line']))
         break
-    # (ii) the chain
+    # (ii) the chain: in strip_attributes itself or in a private helper it hands the derive attribute to
+    outer = fn
     qs = find_calls(fn, r'RepIteratorExt::quote_into_iter$|RepAsIteratorExt.*::quote_into_iter$')
+    if not qs:
+        for b, t in outer.calls():
+            g = crate.fns.get(outer.callee_name(t))
+            if g is not None and g.kind == 'Fn' and g.vis != 'Public' and g.name not in ('strip_attrs_from_vec', 'is_logos_attr'):
+                gq = find_calls(g, r'RepIteratorExt::quote_into_iter$|RepAsIteratorExt.*::quote_into_iter$')
+                if gq:
+                    fn, qs = g, gq
+                    for f2 in crate.body_family(g):
+                        for v in token_loop_violations(f2):
+                            rep.viol(rid, 'token-loop:%s' % f2.name, v, loc(f2))
     ok = False
     for b, t in qs:
         d = desc(fn, t['args'][0])
@@ -53,6 +64,15 @@ def rule_derive_list(rep, crate):
         if not mm:
             mm = re.fullmatch(r'Not\(call:std::option::Option::<T>::is_some_and\(call:syn::punctuated::Punctuated::<T, P>::last\(param2\.segments\),agg:closure:(.*?)\{\}\)\)', cd)
             form = 'drop-if-eq'
+        if not mm:
+            # the predicate as a private helper: filter(|p| !helper(p)), helper = p.segments.last().is_some_and(..)
+            mh = re.fullmatch(r'Not\(call:([A-Za-z_0-9:]+)\(param2\)\)', cd)
+            h = crate.fns.get(mh.group(1)) if mh else None
+            if h is not None and h.kind == 'Fn':
+                hd = ret_desc(h)
+                mm = re.fullmatch(r'call:std::option::Option::<T>::is_some_and\(call:syn::punctuated::Punctuated::<T, P>::last\(param1\.segments\),agg:closure:(.*?)\{\}\)', hd)
+                form = 'drop-if-eq'
+                cd = cd + ' with ' + hd
         rep.inst(rid, 'strip_attributes:filter', detail=cd[:200])
         if not mm:
             rep.viol(rid, 'derive-chain:filter', 'the derive filter is %s, expected path.segments.last().map_or(true, |s| s.ident != "Logos") (or !is_some_and(== "Logos"))' % cd[:200], loc(clo or fn))
@@ -75,10 +95,17 @@ def rule_derive_list(rep, crate):
     if not qs:
         rep.viol(rid, 'derive-chain:missing', 'strip_attributes no longer re-quotes the derive list', loc(fn))
     # the rewrite happens only for `derive` lists that parsed
-    is_ident = [(b, t) for b, t in find_calls(fn, r'syn::Path::is_ident$')]
+    is_ident = [(b, t) for b, t in find_calls(outer, r'syn::Path::is_ident$')] + ([(b, t) for b, t in find_calls(fn, r'syn::Path::is_ident$')] if fn is not outer else [])
     names = set()
     for b, t in is_ident:
-        cb = const_bytes(t['args'][1]) or const_bytes(trace(fn, t['args'][1])[1] if trace(fn, t['args'][1])[0] == 'const' else {})
+        cb = const_bytes(t['args'][1])
+        for ff in (outer, fn):
+            if cb is None:
+                try:
+                    r0 = trace(ff, t['args'][1])
+                    cb = const_bytes(r0[1]) if r0[0] == 'const' else None
+                except Exception:
+                    cb = None
         if cb:
             names.add(cb.decode())
     rep.inst(rid, 'strip_attributes:list-name', detail=sorted(names))
@@ -128,10 +155,25 @@ def rule_attr_set(rep, crate):
     f = crate.fns.get('is_logos_attr')
     if rep.anchor(rid, 'fn is_logos_attr', f is not None):
         names = []
+        array_form = False
         for b, t in find_calls(f, r'syn::Path::is_ident$'):
             r = trace(f, t['args'][1])
             cb = const_bytes(r[1]) if r[0] == 'const' else None
             names.append(cb.decode() if cb else '?')
+        rr = trace(f, dict(op='copy', place=dict(local=0, proj=[])))
+        if not names and rr[0] == 'call' and re.search(r'Iterator>?::any$', f.callee_name(rr[2])):
+            # [LOGOS_ATTR, TOKEN_ATTR, REGEX_ATTR].into_iter().any(|name| path.is_ident(name))
+            src = f.slice(rr[2]['args'][0])
+            clo = trace(f, rr[2]['args'][1])
+            cf = crate.fns.get(clo[2]['rhs']['kind'].get('closure', '')) if clo[0] == 'agg' else None
+            if cf is not None and re.fullmatch(r'call:syn::Path::is_ident\(param1\.0,param2\)', ret_desc(cf)) and not [c for c in src.calls if not re.search(r'IntoIterator.*>::into_iter$|slice::<impl \[T\]>::iter$|Iterator>?::(copied|cloned)$', c)]:
+                for ty, v, _fn in src.consts:
+                    if ty and 'str' in ty and v:
+                        try:
+                            names.append(bytes.fromhex(v).decode())
+                        except ValueError:
+                            names.append('?')
+                array_form = True
         rep.inst(rid, 'is_logos_attr:names', detail=sorted(names))
         if sorted(names) != ['logos', 'regex', 'token']:
             rep.viol(rid, 'attr-set:names', 'is_logos_attr compares with %s, expected exactly logos, token, regex' % sorted(names), loc(f))
@@ -152,7 +194,7 @@ def rule_attr_set(rep, crate):
                 rets |= vals
         # any non-is_ident influence on the result
         sl = f.slice(dict(op='copy', place=dict(local=0, proj=[])))
-        other = [c for c in sl.calls if not re.search(r'is_ident$|Attribute::path$', c)]
+        other = [c for c in sl.calls if not re.search(r'is_ident$|Attribute::path$', c) and not (array_form and re.search(r'Iterator>?::any$|IntoIterator.*>::into_iter$|slice::<impl \[T\]>::iter$|Iterator>?::(copied|cloned)$', c))]
         if other:
             rep.viol(rid, 'attr-set:extra', 'is_logos_attr also depends on %s' % other, loc(f))
     g = crate.fns.get('strip_attrs_from_vec')
